@@ -81,14 +81,14 @@ pub fn gen_args(r: &mut Rng, op: i64) -> Vec<f64> {
         502 => vec![m, len, 2.0 + pos(r) % 10.0, segs(r), lead(r), fl01(r), fl01(r), fl01(r)],
         503 => vec![m, 2.0 + pos(r) % 20.0, if pitch < 1.5 { 4.0 } else { *r.pick(&[4.0, 5.0, 8.0]) }, fl01(r), fl01(r), fl01(r)],
         504 => vec![pos(r) + 1.0, r.uniform(0.05, 1.0), pos(r), pos(r), 3.0 + r.below(30) as f64, fl01(r)],
-        505 => vec![pos(r) + 1.0, r.uniform(0.05, 1.0), pos(r), *r.pick(&[1.0, 90.0, 180.0, 359.0, 360.0]), 3.0 + r.below(30) as f64],
-        506 => { let deg = *r.pick(&[1.0, 90.0, 180.0, 359.0, 360.0, 360.0, 45.0, 361.0]); vec![r.below(3) as f64, if deg == 360.0 { 1.0 + r.below(12) as f64 } else { 2.0 + r.below(12) as f64 }, deg] }
+        505 => vec![pos(r) + 1.0, r.uniform(0.05, 1.0), pos(r), r.deg(&[1.0, 90.0, 180.0, 359.0, 360.0]), 3.0 + r.below(30) as f64],
+        506 => { let deg = r.deg(&[1.0, 90.0, 180.0, 359.0, 360.0, 360.0, 45.0, 361.0]); vec![r.below(3) as f64, if deg == 360.0 { 1.0 + r.below(12) as f64 } else { 2.0 + r.below(12) as f64 }, deg] }
         507 => { let od = pos(r) + 1.0; vec![od, od * r.uniform(0.01, 0.49), pos(r), fl01(r), 3.0 + r.below(60) as f64] }
         508 => vec![pos(r), pos(r), fl01(r), 3.0 + r.below(60) as f64],
         509 => { let od1 = pos(r) + 1.0; let od2 = pos(r) + 1.0; vec![od1, od2, od1.min(od2) * r.uniform(0.01, 0.49), pos(r), fl01(r), 3.0 + r.below(60) as f64] }
         510 => vec![pos(r), pos(r), pos(r), fl01(r), 3.0 + r.below(60) as f64],
-        511 => { let od = pos(r) + 1.0; vec![od, od * r.uniform(0.01, 0.49), *r.pick(&[1.0, 45.0, 90.0, 180.0, 359.0, 360.0, 360.0, 0.5, 0.0, -10.0, 360.5, 450.0]), *r.pick(&[0.0, 0.005, 1.0, 30.0, 250.0]), 3.0 + r.below(60) as f64] }
-        512 => vec![pos(r) + 1.0, *r.pick(&[1.0, 45.0, 90.0, 180.0, 359.0, 360.0, 360.0, 0.5, 0.0, -10.0, 360.5, 450.0]), *r.pick(&[0.0, 0.005, 1.0, 30.0, 250.0]), 3.0 + r.below(60) as f64],
+        511 => { let od = pos(r) + 1.0; vec![od, od * r.uniform(0.01, 0.49), r.deg(&[1.0, 45.0, 90.0, 180.0, 359.0, 360.0, 360.0, 0.5, 0.0, -10.0, 360.5, 450.0]), *r.pick(&[0.0, 0.005, 1.0, 30.0, 250.0]), 3.0 + r.below(60) as f64] }
+        512 => vec![pos(r) + 1.0, r.deg(&[1.0, 45.0, 90.0, 180.0, 359.0, 360.0, 360.0, 0.5, 0.0, -10.0, 360.5, 450.0]), *r.pick(&[0.0, 0.005, 1.0, 30.0, 250.0]), 3.0 + r.below(60) as f64],
         _ => { let pitch = *r.pick(&[0.4, 0.5, 0.8, 1.0, 1.25, 1.5, 2.0, 3.0, 6.0]); let d_maj = pitch * r.uniform(4.0, 12.0);
                let d_min = d_maj - 2.0 * 5.0 / 8.0 * (3.0f64.sqrt() / 2.0 * pitch);
                vec![d_min, d_maj, pitch, pitch * if short { r.uniform(2.05, 2.9) } else { r.uniform(2.5, 8.0) }, segs(r), lead(r), lead(r), fl01(r), fl01(r)] }
